@@ -236,7 +236,7 @@ def stops_of(vals, unit, t0):
 
 
 def enum_lists(tier):
-    L = 3 if tier == "quick" else 4
+    L = 3 if tier == "quick" else 5
     idx = range(len(TICKS))
     out = [()]
     for k in range(1, L + 1):
